@@ -25,6 +25,7 @@ import re
 
 import featlib
 from featlib import Check, walk, render, is_call, rel, children
+from norm_c01 import (InlinedFunction, CondNF, Flow, T, F, f_atom, f_not, f_and, f_or, f_atoms, f_sat, decide, TooManyAtoms)
 
 LAFEM = "kernel/lafem/"
 DRIVER = "tu/c01_apply.cpp"
@@ -208,6 +209,7 @@ class FnInfo:
                     self.assigned.add(e.get("d"))
         self.pindex = {p["d"]: i for i, p in enumerate(fn.params)}
         self.pkind = [kind_of_type(fn.type(p["t"])) for p in fn.params]
+        self.assigned_params = {self.pindex[d] for d in self.assigned if d in self.pindex}
 
     def resolve(self, n):
         seen = 0
@@ -287,6 +289,14 @@ class FnInfo:
         while id(cur) in self.parent:
             cur = self.parent[id(cur)]
             if cur.get("k") in ("For", "While", "Do", "ForRange"):
+                return True
+        return False
+
+    def in_switch(self, n):
+        cur = n
+        while id(cur) in self.parent:
+            cur = self.parent[id(cur)]
+            if cur.get("k") == "Switch":
                 return True
         return False
 
@@ -404,6 +414,54 @@ def rule_e0(ck, agg, facts, pfacts, bydecl, drvdir):
 
 
 # --------------------------------------------------------------------------------------------------
+# helper inlining (lib/norm_c01.py): the rules see through helpers extracted from / shared between the
+# anchored functions
+# --------------------------------------------------------------------------------------------------
+
+PRIMITIVE = re.compile(r"^FEAT::(Math|MemoryPool|Statistics|Util|String|Tiny)::|^FEAT::(assertion|abortion)$|^std::")
+# members whose meaning is fixed by the accessor contract table (DESIGN A.2): never looked into
+ACCESSORS = {"val", "elements", "col_ind", "row_ptr", "row_numbers", "offsets", "used_rows", "num_of_offsets", "rows", "columns", "used_elements", "size",
+             "first", "rest", "block_a", "block_b", "block_d", "at", "get", "layout", "name", "bytes"}
+_inline_cache = {}
+
+
+def _member_policy(f):
+    def allow(call, callee):
+        cal = call.get("callee", "") or ""
+        if ARCH_APPLY.match(cal) or PRIMITIVE.search(cal) or callee.name in ACCESSORS or callee.d.get("ctor") or callee.d.get("dtor"):
+            return False
+        if not callee.file.startswith(featlib.repo_path(LAFEM)):
+            return False
+        if call.get("a"):
+            return True
+        return f.type(callee.d.get("ret")).strip() in ("bool", "_Bool")
+    return allow
+
+
+def _kernel_policy(call, callee):
+    cal = call.get("callee", "") or ""
+    if PRIMITIVE.search(cal) or callee.cls == "FEAT::LAFEM::Arch::Apply" or "ApplyBanded" in callee.qn:
+        return False
+    return callee.file.startswith(featlib.repo_path(LAFEM))
+
+
+def inline_member(f, bydecl):
+    k = ("m", id(f))
+    if k not in _inline_cache:
+        _inline_cache[k] = InlinedFunction(f, bydecl, _member_policy(f))
+    return _inline_cache[k]
+
+
+def inline_kernel(f, bydecl):
+    if isinstance(f, InlinedFunction):
+        return f
+    k = ("k", id(f))
+    if k not in _inline_cache:
+        _inline_cache[k] = InlinedFunction(f, bydecl, _kernel_policy)
+    return _inline_cache[k]
+
+
+# --------------------------------------------------------------------------------------------------
 # E1
 # --------------------------------------------------------------------------------------------------
 
@@ -422,7 +480,13 @@ def rule_e1_roles(ck, agg, f, fi):
     ar = arity(f)
     inst = f.cls.replace("FEAT::LAFEM::", "")
     blocked_m = tmpl(f.cls) in BLOCKED
+    cnf_, fl_ = reach_map(f, fi)
     for c in arch_calls(f):
+        try:
+            if f_sat(fl_.reach.get(id(c), T), cnf_.exclusions()) is None:
+                continue                  # dead call: constant-folded branch of an inlined helper
+        except TooManyAtoms:
+            pass
         kname = ARCH_APPLY.match(c["callee"]).group(1)
         pn = c.get("pn", [])
         args = c.get("a", [])
@@ -565,30 +629,138 @@ def rule_e1_dispatch(ck, agg, facts, bydecl):
 # E7
 # --------------------------------------------------------------------------------------------------
 
-def zero_atom(fi, n, ar):
-    """classify a condition atom: ('zero', what) admissible zero-product condition, ('wrong', what) recognised
-    accessor with the wrong polarity, None unrecognised"""
+def make_cnf(f, fi):
+    """condition normal form of function f (see lib/norm_c01.py): constants are decided by fi.role"""
+    def const_value(n):
+        r = fi.role(n)
+        return r[1] if r[0] == "const" else None
+    return CondNF(f, fi.resolve, const_value)
+
+
+def _is_abs_of(fi, n, what):
     n = fi.resolve(n)
-    if n.get("k") != "Bin":
-        return None
-    op = n.get("op")
-    l, r = fi.role(n["lhs"]), fi.role(n["rhs"])
-    if l[0] == "const" and r[0] == "this":
-        l, r = r, l
-        op = {"<": ">", ">": "<", "<=": ">=", ">=": "<="}.get(op, op)
-    if l[0] == "this" and l[1] in ("used_elements", "rows", "columns", "size", "used_rows") and r == ("const", 0.0):
-        if op in ("==", "<="):
-            return ("zero", "this->%s() == 0" % l[1])
-        return ("wrong", "this->%s() %s 0" % (l[1], op))
-    # Math::abs(alpha) < Math::eps<DT>()
-    lhs, rhs = fi.resolve(n["lhs"]), fi.resolve(n["rhs"])
-    if lhs.get("k") == "Call" and lhs.get("callee", "").endswith("Math::abs") and len(lhs.get("a", [])) == 1 \
-            and rhs.get("k") == "Call" and rhs.get("callee", "").endswith("Math::eps"):
-        if ar == 4 and fi.role(lhs["a"][0]) == ("param", 3):
-            if op in ("<", "<="):
-                return ("zero", "|alpha| < eps")
-            return ("wrong", "|alpha| %s eps" % op)
-    return None
+    return n is not None and n.get("k") == "Call" and n.get("callee", "").endswith("Math::abs") and len(n.get("a", [])) == 1 and fi.role(n["a"][0]) == what
+
+
+def _is_eps(fi, n):
+    n = fi.resolve(n)
+    return n is not None and n.get("k") == "Call" and n.get("callee", "").endswith("Math::eps")
+
+
+def _mentions_param(fi, n, idx):
+    if n is None:
+        return False
+    for x in walk(n):
+        if x.get("k") == "Ref":
+            y = fi.resolve(x)
+            for z in walk(y):
+                if z.get("k") == "Ref" and z.get("dk") == "param" and fi.pindex.get(z.get("d")) == idx:
+                    return True
+    return False
+
+
+class ZeroAtoms:
+    """interpretation of the condition atoms of a container apply*: which of them state a zero product
+    (this->used_elements()/rows()/columns()/size()/used_rows() == 0, |alpha| < eps, alpha == 0)"""
+
+    EXTENTS = ("used_elements", "rows", "columns", "size", "used_rows")
+
+    def __init__(self, fi, cnf, ar):
+        self.fi, self.cnf, self.ar = fi, cnf, ar
+        self.refresh()
+
+    def refresh(self):
+        fi, ar = self.fi, self.ar
+        self.zero = []            # formulas, each an admissible zero-product condition
+        self.names = {}
+        self.strict, self.le, self.exact = [], [], []      # |alpha| < eps, eps < |alpha| (negated: |alpha| <= eps), alpha == 0
+        self.alpha_other = []     # unrecognised atoms that mention alpha
+        self.recognised = set()
+        for key, info in list(self.cnf.atom_info.items()):
+            kind = info.get("kind")
+            if kind == "z":
+                r = fi.role(info["e"])
+                if r[0] == "this" and r[1] in self.EXTENTS:
+                    self.zero.append(f_atom(key))
+                    self.names[key] = "this->%s() == 0" % r[1]
+                    self.recognised.add(key)
+                    continue
+                if ar == 4 and r == ("param", 3):
+                    self.zero.append(f_atom(key))
+                    self.exact.append(key)
+                    self.names[key] = "alpha == 0"
+                    self.recognised.add(key)
+                    continue
+            if kind == "lt" and ar == 4:
+                if _is_abs_of(fi, info["a"], ("param", 3)) and _is_eps(fi, info["b"]):
+                    self.zero.append(f_atom(key))
+                    self.strict.append(key)
+                    self.names[key] = "|alpha| < eps"
+                    self.recognised.add(key)
+                    continue
+                if _is_eps(fi, info["a"]) and _is_abs_of(fi, info["b"], ("param", 3)):
+                    self.zero.append(f_not(f_atom(key)))
+                    self.le.append(key)
+                    self.names[key] = "eps < |alpha|"
+                    self.recognised.add(key)
+                    continue
+            if ar == 4 and any(_mentions_param(fi, info.get(k_), 3) for k_ in ("e", "a", "b")):
+                self.alpha_other.append(key)
+            self.names.setdefault(key, self._name(key, info))
+
+    @staticmethod
+    def _name(key, info):
+        if key[0] == "z":
+            return "%s == 0" % key[1]
+        if key[0] == "lt":
+            return "%s < %s" % (key[1], key[2])
+        if key[0] == "eq":
+            return "%s == %s" % (key[1], key[2])
+        if key[0] == "loop":
+            return "loop at line %s entered" % key[2]
+        if key[0] == "case":
+            return "case at line %s taken" % key[2]
+        return str(key[-1])
+
+    def constraint(self):
+        """lt/eq exclusions plus: alpha == 0 implies |alpha| < eps and not eps < |alpha|"""
+        cs = [self.cnf.exclusions()]
+        for x in self.exact:
+            for s_ in self.strict:
+                cs.append(f_or(f_not(f_atom(x)), f_atom(s_)))
+            for l_ in self.le:
+                cs.append(f_or(f_not(f_atom(x)), f_not(f_atom(l_))))
+        for s_ in self.strict:
+            for l_ in self.le:
+                cs.append(f_not(f_and(f_atom(s_), f_atom(l_))))
+        return f_and(*cs)
+
+    def any_zero(self):
+        return f_or(*self.zero) if self.zero else F
+
+    def alpha_small(self):
+        """|alpha| < eps in terms of the atoms present (None if the function never tests alpha against eps)"""
+        if not self.strict and not self.le:
+            return None
+        return f_and(*([f_atom(k) for k in self.strict] + [f_not(f_atom(k)) for k in self.le]))
+
+    def witness(self, w):
+        if not w:
+            return "unconditionally"
+        parts = []
+        for k, v in sorted(w.items(), key=lambda kv: repr(kv[0])):
+            if k[0] in ("loop", "case"):
+                continue
+            parts.append(("%s" if v else "!(%s)") % self.names.get(k, self._name(k, {})))
+        return " && ".join(parts) if parts else "unconditionally"
+
+
+def reach_map(f, fi, cnf=None):
+    """path condition (formula over cnf atoms) of every statement / call of f"""
+    cnf = cnf or make_cnf(f, fi)
+    fl = Flow(cnf)
+    fl.run(f.body)
+    return cnf, fl
 
 
 def disjuncts(n):
@@ -597,24 +769,47 @@ def disjuncts(n):
     return [n]
 
 
-def kernel_divides_by_a(k):
-    """-> set of flags under which the kernel divides by its parameter a/alpha: {None} always, {True}/{False} only
-    under if(transposed) / else"""
+def kernel_divides_by_a(k, assume_small=True):
+    """-> set of flags under which the kernel divides by its parameter a/alpha (with assume_small: although |a| < eps):
+    {None} regardless of the flag, {True}/{False} only when transposed is true / false; decided on the path condition of
+    the division (helpers inlined; a guard `if(|a| < eps) ... return` inside the kernel removes the need for one in the
+    caller)"""
     ki = FnInfo(k)
     aidx = [i for i, p in enumerate(k.params) if p["n"] in ALPHA_SLOTS]
     tidx = [i for i, p in enumerate(k.params) if p["n"] == "transposed"]
     out = set()
     if not aidx:
         return out
-    for n in k.nodes():
-        if n.get("k") in ("Bin", "Assign") and n.get("op") in ("/", "/="):
-            if ki.role(n["rhs"]) == ("param", aidx[0]):
-                flag = None
-                for ifn, br in ki.enclosing_ifs(n):
-                    if tidx and ki.role(ifn["c"]) == ("param", tidx[0]) and br in ("then", "else"):
-                        flag = (br == "then")
-                        break
-                out.add(flag)
+    divs = [n for n in k.nodes() if n.get("k") in ("Bin", "Assign") and n.get("op") in ("/", "/=") and ki.role(n["rhs"]) == ("param", aidx[0])]
+    if not divs:
+        return out
+    cnf, fl = reach_map(k, ki)
+    tform = cnf.formula({"k": "Ref", "dk": "param", "d": k.params[tidx[0]]["d"], "n": "transposed", "t": k.params[tidx[0]]["t"]}) if tidx else None
+    small = []
+    if assume_small:
+        for key, info in cnf.atom_info.items():
+            if info.get("kind") == "lt" and _is_abs_of(ki, info["a"], ("param", aidx[0])) and _is_eps(ki, info["b"]):
+                small.append(f_atom(key))
+            elif info.get("kind") == "lt" and _is_eps(ki, info["a"]) and _is_abs_of(ki, info["b"], ("param", aidx[0])):
+                small.append(f_not(f_atom(key)))
+    for n in divs:
+        r = fl.reach.get(id(n))
+        if r is None:
+            out.add(None)
+            continue
+        r = f_and(r, *small)
+        if tform is None:
+            if f_sat(r, cnf.exclusions()) is not None:
+                out.add(None)
+            continue
+        st = f_sat(f_and(r, tform), cnf.exclusions()) is not None
+        sf = f_sat(f_and(r, f_not(tform)), cnf.exclusions()) is not None
+        if st and sf:
+            out.add(None)
+        elif st:
+            out.add(True)
+        elif sf:
+            out.add(False)
     return out
 
 
@@ -689,13 +884,12 @@ def positive_preconditions(callee):
 
 
 def rule_e7(ck, agg, f, fi, bydecl):
+    """decided on the structured tree of f with its helpers inlined: path conditions are formulas over canonical
+    condition atoms, so early return / if-else / negated conditions with swapped branches / nested ifs / conditions
+    held in const locals or in `return E;` helpers are the same program to this rule"""
     ar = arity(f)
     inst = f.cls.replace("FEAT::LAFEM::", "")
     key = fkey(f)
-    cfg = f.cfg
-    if cfg is None:
-        ck.incomplete("E7.exit-defines-r", "%s: no CFG" % key)
-        return
     kernel_defs, early, unmodelled = {}, {}, {}
 
     def mutable_param(call, i):
@@ -782,62 +976,112 @@ def rule_e7(ck, agg, f, fi, bydecl):
                     pass
                 else:
                     unmodelled[n["i"]] = "unrecognised modification of the result operand: %s" % render(n)[:120]
+    if 0 in fi.assigned_params or (ar == 4 and 3 in fi.assigned_params):
+        ck.incomplete("E7.exit-defines-r", "%s: the parameter r/alpha is reassigned inside the function: not modelled" % key)
+        return
+
+    # ---- one pass over the structured tree: reach, "r undefined", "last definition of r is early-out #i" --------
+    cnf = make_cnf(f, fi)
+    good_form = "format" if ar == 2 else "copy-y"
+    good_early = {i for i, (n, form) in early.items() if form == good_form}
+    etags = {i: "eo%d" % i for i in early}
+    by_node = {}
+    for i, n in kernel_defs.items():
+        by_node[id(n)] = ("kernel", i)
+    for i, (n, form) in early.items():
+        by_node[id(n)] = ("early", i)
+    for i in unmodelled:
+        n = f.by_id(i)
+        if n is not None and id(n) not in by_node:
+            by_node[id(n)] = ("other", i)
+
+    def on_simple(node, st):
+        hits = [by_node[id(x)] for x in walk(node) if id(x) in by_node]
+        for kind, i in hits:
+            st = dict(st)
+            for t in etags.values():
+                st[t] = F
+            if kind == "early":
+                st[etags[i]] = st["reach"]
+                if i in good_early:
+                    st["undef"] = F
+            else:
+                st["undef"] = F
+        return st
+    fl = Flow(cnf, tags=("reach", "undef") + tuple(etags.values()), on_simple=on_simple)
+    init = {t: F for t in fl.tags}
+    init["reach"] = T
+    init["undef"] = T
+    try:
+        fl.run(f.body, init)
+        za = ZeroAtoms(fi, cnf, ar)
+        cons = za.constraint()
+        _rule_e7_decide(ck, agg, f, fi, bydecl, key, inst, ar, cnf, fl, za, cons, kernel_defs, early, good_early, etags, unmodelled)
+    except TooManyAtoms as e_:
+        ck.incomplete("E7.exit-defines-r", "%s: %s independent branch conditions: path conditions not enumerated" % (key, e_))
+
+
+def _rule_e7_decide(ck, agg, f, fi, bydecl, key, inst, ar, cnf, fl, za, cons, kernel_defs, early, good_early, etags, unmodelled):
     # policy: an operation on r the rule does not model is never "no definition of r" — it is analysis-incomplete
+    live = lambda n: n is not None and f_sat(fl.reach.get(id(n), T), cons) is not None
     for i, why in sorted(unmodelled.items()):
-        ck.incomplete("E7.exit-defines-r", "%s: %s (line %s)" % (key, why, (f.by_id(i) or {}).get("l")))
-    good_early = {i for i, (n, form) in early.items() if form == ("format" if ar == 2 else "copy-y")}
-    is_def = lambda n: n.get("i") in kernel_defs or n.get("i") in good_early or n.get("i") in unmodelled
-    ok, bad = cfg.must_pass(is_def)
+        if live(f.by_id(i)):
+            ck.incomplete("E7.exit-defines-r", "%s: %s (line %s)" % (key, why, (f.by_id(i) or {}).get("l")))
+    defs_in_loop = [n for n in list(kernel_defs.values()) + [e[0] for e in early.values()] if fi.in_loop(n) or fi.in_switch(n)]
+    bad_exit = None
+    # 4-operand forms: on a path on which r was found to be the very vector y (same object / same array) r holds y
+    same = {}
+    if ar == 4:
+        def _opnd(n):
+            n = fi.resolve(n)
+            while n is not None and ((n.get("k") == "Un" and n.get("op") == "&") or n.get("k") == "Cast"):
+                n = fi.resolve(n.get("e"))
+            if n is None:
+                return None
+            if n.get("k") == "Ref" and n.get("dk") == "param":
+                return fi.pindex.get(n.get("d"))
+            r_ = fi.role(n)
+            return r_[1] if r_[0] == "vec" and r_[2] == "elements" else None
+        for k_, info in cnf.atom_info.items():
+            if info.get("kind") == "eq" and {_opnd(info["a"]), _opnd(info["b"])} == {0, 2}:
+                same[k_] = False
+    for node, st in fl.exits:
+        w = f_sat(st["undef"], cons, fixed=same)
+        if w is not None:
+            bad_exit = (node, w)
+            break
+    ok = bad_exit is None
     detail = "every normal exit is preceded by a definition of r (%d kernel call(s), %d early-out(s))" % (len(kernel_defs), len(good_early))
     line = f.line
+    if not ok and defs_in_loop:
+        ck.incomplete("E7.exit-defines-r", "%s: a definition of r lies inside a loop/switch (line %s): not modelled" % (key, defs_in_loop[0].get("l")))
+        ok = True
     if not ok:
-        path = cfg.path_to(bad[0], avoid={b for b in cfg.blocks if any(is_def(fi.fn.by_id(e) or {}) for e in cfg.blocks[b]["el"])})
-        lines = [l for l in cfg.block_lines(path) if l]
-        line = lines[-1] if lines else f.line
+        node, w = bad_exit
+        line = node.get("l") if node is not None else f.end
         wrongform = ["'%s' (line %s)" % (render(n_)[:70], n_.get("l")) for i_, (n_, fm_) in sorted(early.items()) if i_ not in good_early]
-        detail = ("a normal exit is reachable without a definition of r with the value of this form%s (%s): path through lines %s" % (
+        detail = ("a normal exit (%s) is reachable without a definition of r with the value of this form%s (%s) when %s" % (
+            ("return at line %s" % node.get("l")) if node is not None else "end of the function",
             (" — only " + ", ".join(wrongform[:2]) + ", which does not produce it") if wrongform else "",
-            "format()" if ar == 2 else "copy(y)" + " or the kernel call", sorted(set(lines))[-8:]))
+            "format()" if ar == 2 else "copy(y)" + " or the kernel call", za.witness(w)))
     agg.add("E7.exit-defines-r", key, ok, detail, f.file, line, inst=inst)
 
     # early-outs: form of the arity + zero-product condition, for those that can be the final definition
-    kblocks = {cfg.block_of(i)[0] for i in kernel_defs if cfg.block_of(i)}
-    exits = set(cfg.normal_exit_preds())
+    zero = za.any_zero()
     for i, (n, form) in sorted(early.items()):
-        w = cfg.block_of(i)
-        if w is None:
-            ck.incomplete("E7.early-out", "%s: early-out statement not in CFG" % key)
-            continue
-        b, pos = w
-        later_kernel = any(cfg.block_of(k) and cfg.block_of(k)[0] == b and cfg.block_of(k)[1] > pos for k in kernel_defs)
-        final = False
-        if not later_kernel:
-            reach = set()
-            for s in cfg.succ.get(b, []):
-                reach |= cfg.reachable(s, avoid=kblocks)
-            final = (b in exits) or bool(reach & exits) or (cfg.exit in reach)
-        if not final:
+        final = F
+        for node, st in fl.exits:
+            final = f_or(final, st[etags[i]])
+        if f_sat(final, cons) is None:
             continue
         ekey = "%s/early-out" % key
         want = "r.format()" if ar == 2 else "r.copy(y)"
-        if form != ("format" if ar == 2 else "copy-y"):
+        if i not in good_early:
             agg.add("E7.early-out", ekey, False, "early-out '%s' is the final definition of r; the %d-operand form must return %s" % (
                 render(n)[:80], ar, "the zero vector via r.format()" if ar == 2 else "y via r.copy(y) (r = y + alpha*A*x with A*x = 0 or alpha = 0)"), f.file, n.get("l"), inst=inst)
             continue
-        encl = [(ifn, br) for ifn, br in fi.enclosing_ifs(n)]
-        if fi.in_loop(n):
-            ck.incomplete("E7.early-out", "%s: early-out inside a loop (line %s)" % (key, n.get("l")))
-            continue
-        if not encl:
-            agg.add("E7.early-out", ekey, False, "'%s' is an unconditional final definition of r: wrong for every matrix with entries" % render(n)[:60], f.file, n.get("l"), inst=inst)
-            continue
-        ifn, br = encl[0]
-        if br != "then" or len(encl) > 1:
-            ck.incomplete("E7.early-out", "%s: early-out under an else branch / nested conditions (line %s): not modelled" % (key, n.get("l")))
-            continue
-        atoms = [zero_atom(fi, a, ar) for a in disjuncts(fi.resolve(ifn["c"]))]
-        if any(a is None for a in atoms):
-            ck.incomplete("E7.early-out", "%s: unrecognised early-out condition '%s' (line %s)" % (key, render(ifn["c"])[:120], ifn.get("l")))
+        if fi.in_loop(n) or fi.in_switch(n):
+            ck.incomplete("E7.early-out", "%s: early-out inside a loop/switch (line %s)" % (key, n.get("l")))
             continue
         if ar == 4:
             if n.get("k") == "Call" and n.get("callee", "").endswith("MemoryPool::copy"):
@@ -851,15 +1095,23 @@ def rule_e7(ck, agg, f, fi, bydecl):
                         ("early-out '%s' resolves to %s, which stores y's element pointer in r (shallow convert): r is re-seated onto the buffer of the input operand y, so any later "
                          "write to r modifies y and r no longer owns its storage" % (render(n)[:50], (n.get("cfull") or "?").replace("FEAT::LAFEM::", ""))) if "shares" in sem else
                         "r receives the values of y by MemoryPool::copy into its own array (%s)" % (n.get("cfull") or "?").replace("FEAT::LAFEM::", "")[:90], f.file, n.get("l"), inst=inst)
-        wrong = [a[1] for a in atoms if a[0] == "wrong"]
-        agg.add("E7.early-out", ekey, not wrong,
-                ("early-out %s taken under '%s', which does not imply a zero product" % (want, " || ".join(wrong))) if wrong else
-                "%s under %s" % (want, " || ".join(a[1] for a in atoms)), f.file, n.get("l"), inst=inst)
+        # the early-out is the final definition exactly under `final`; it must imply a zero product
+        unknown = [k_ for k_ in f_atoms(final) if k_ not in za.recognised]
+        verdict, w = decide(f_and(final, f_not(zero)), cons, universal=unknown)
+        if verdict == "depends":
+            ck.incomplete("E7.early-out", "%s: unrecognised early-out condition (%s) (line %s)" % (key, "; ".join(sorted(za.names.get(k_, str(k_)) for k_ in unknown))[:160], n.get("l")))
+            continue
+        agg.add("E7.early-out", ekey, verdict == "unsat",
+                ("early-out %s is the result when %s, which does not imply a zero product" % (want, za.witness(w))) if verdict != "unsat" else
+                "%s only under %s" % (want, " || ".join(sorted({za.names[k_] for k_ in f_atoms(final) if k_ in za.recognised})) or "a zero-product condition"), f.file, n.get("l"), inst=inst)
 
     # kernels dividing by a must not be reached with alpha = 0
     if ar == 4:
         for i, c in sorted(kernel_defs.items()):
             pn = c["pn"]
+            rc = fl.reach.get(id(c), T)
+            if f_sat(rc, cons) is None:
+                continue                      # dead call (constant-folded branch of an inlined helper)
             flag = None
             if "transposed" in pn:
                 r = fi.role(c["a"][pn.index("transposed")])
@@ -868,53 +1120,38 @@ def rule_e7(ck, agg, f, fi, bydecl):
             if gens is None:
                 ck.incomplete("E7.alpha-guard", "%s: kernel body of %s not in the facts" % (key, c["callee"]))
                 continue
-            needs = False
+            needs = divides = False
             for g in gens:
-                fl = kernel_divides_by_a(g)
-                if None in fl or (flag is not None and flag in fl) or (flag is None and fl and "transposed" in pn):
-                    needs = True
+                for small_ in (False, True):
+                    fl_ = kernel_divides_by_a(inline_kernel(g, bydecl), assume_small=small_)
+                    if None in fl_ or (flag is not None and flag in fl_) or (flag is None and fl_ and "transposed" in pn):
+                        if small_:
+                            needs = True
+                        else:
+                            divides = True
             akey = "%s/%s" % (key, ARCH_APPLY.match(c["callee"]).group(1))
+            if not divides:
+                continue
             if not needs:
+                agg.add("E7.alpha-guard", akey, True, "the kernel computes b/a only behind its own |a| < eps test", f.file, c.get("l"), inst=inst)
                 continue
             aslot = next((s for s in ALPHA_SLOTS if s in pn), None)
             if aslot is None or fi.role(c["a"][pn.index(aslot)])[0] == "const":
                 continue
-            # atom blocks testing |alpha| < eps
-            ab = []
-            unknown = False
-            for b in cfg.blocks.values():
-                cid = b.get("cond")
-                if cid is None:
-                    continue
-                cn = f.by_id(cid)
-                if cn is None:
-                    continue
-                if b.get("term") == "IfStmt":
-                    ds = disjuncts(fi.resolve(cn))
-                    atom = ds[-1]
-                else:
-                    atom = cn
-                za = zero_atom(fi, atom, ar)
-                if za and za[0] == "zero" and za[1].startswith("|alpha|"):
-                    if any(x.get("k") == "Bin" and x.get("op") == "&&" for x in walk(cn)):
-                        unknown = True
-                    ab.append(b)
-            cb = cfg.block_of(i)[0]
-            if unknown:
-                ck.incomplete("E7.alpha-guard", "%s: |alpha| < eps test inside a conjunction: not modelled" % key)
+            if fi.role(c["a"][pn.index(aslot)]) != ("param", 3):
+                continue                      # E1.role reports a wrong alpha operand
+            small = za.alpha_small()
+            target = rc if small is None else f_and(rc, small)
+            verdict, w = decide(target, cons, universal=[k_ for k_ in za.alpha_other if k_ in f_atoms(target)])
+            if verdict == "depends":
+                ck.incomplete("E7.alpha-guard", "%s: the kernel call is guarded by a test on alpha the rule does not recognise (%s)" % (
+                    key, "; ".join(za.names.get(k_, str(k_)) for k_ in za.alpha_other)[:160]))
                 continue
-            ok = False
-            for b in ab:
-                succ = b.get("succ", [])
-                if len(succ) != 2 or succ[0] is None:
-                    continue
-                if cb in cfg.reachable(succ[0]):
-                    continue
-                if cb in cfg.reachable(cfg.entry, avoid={b["id"]}):
-                    continue
-                ok = True
+            ok = verdict == "unsat"
             agg.add("E7.alpha-guard", akey, ok,
-                    "the kernel computes b/a; the call is %s" % ("unreachable when |alpha| < eps" if ok else "reachable with alpha = 0 (no dominating |alpha| < eps early-out): r becomes inf/NaN"),
+                    "the kernel computes b/a; the call is %s" % ("unreachable when |alpha| < eps" if ok else
+                                                                 "reachable with alpha = 0 (%s; no |alpha| < eps test excludes it): r becomes inf/NaN" % (
+                                                                     "path condition: " + za.witness({k_: v for k_, v in w.items() if k_ in f_atoms(rc)}))),
                     f.file, c.get("l"), inst=inst)
 
 
@@ -989,7 +1226,7 @@ def rule_c6(ck, agg, f, fi, meta):
     agg.add("C6.view-alias", fkey(f), not bad, "; ".join(bad) if bad else "%d range view(s) of x/y only in const positions" % len(views), f.file, line, inst=inst)
 
 
-def rule_c6_kernels(ck, agg, facts):
+def rule_c6_kernels(ck, agg, facts, bydecl=None):
     R = "C6.kernel-const"
     for f in facts.functions:
         if f.tk == "pattern":
@@ -1009,6 +1246,43 @@ def rule_c6_kernels(ck, agg, facts):
                 line = n.get("l") or line
         agg.add(R, "Arch::%s" % f.qn.split("Arch::", 1)[-1], not bad, "; ".join(bad) if bad else "only the result pointer is writable; casts keep const",
                 display_file(f), line, inst=f.full)
+        # helpers called from the kernel (extracted blocks): a writable pointer parameter may only receive the result pointer,
+        # and the helper itself contains no const-removing cast
+        fi = FnInfo(f)
+        rdecl = f.params[0]["d"] if f.params else None
+        ralias = {rdecl}
+        for d, v in fi.vars.items():
+            init = v.get("init")
+            while init is not None and init.get("k") == "Cast":
+                init = init.get("e")
+            if init is not None and init.get("k") == "Ref" and init.get("d") in ralias:
+                ralias.add(d)
+        for c in f.calls():
+            callee = (bydecl or {}).get(c.get("cdecl")) if c.get("k") == "Call" else None
+            if callee is None or callee.cls == "FEAT::LAFEM::Arch::Apply" or "ApplyBanded" in callee.qn or PRIMITIVE.search(c.get("callee", "") or ""):
+                continue
+            hb = []
+            for i, a in enumerate(c.get("a", [])):
+                if i >= len(callee.params):
+                    break
+                t = callee.type(callee.params[i]["t"]).strip()
+                if "*" in t and not t.startswith("const "):
+                    b = a
+                    while b is not None and (b.get("k") == "Cast" or (b.get("k") == "Bin" and b.get("op") in ("+", "-"))):
+                        if b.get("k") == "Cast" and drops_const(f, b):
+                            break
+                        b = b.get("e") if b.get("k") == "Cast" else b.get("lhs")
+                    b = fi.resolve(b) if b is not None else None
+                    if not (b is not None and b.get("k") == "Ref" and b.get("d") in ralias):
+                        hb.append("the writable parameter '%s' of helper %s receives '%s', which is not the result pointer (line %s)" % (
+                            callee.params[i]["n"], callee.name, render(a)[:50], c.get("l")))
+            hline = callee.line
+            for n in callee.nodes():
+                if n.get("k") == "Cast" and drops_const(callee, n):
+                    hb.append("cast '%s' in helper %s removes constness (line %s)" % (render(n)[:80], callee.name, n.get("l")))
+                    hline = n.get("l") or hline
+            agg.add(R, "Arch::%s" % (callee.qn.split("Arch::", 1)[-1] if "Arch::" in callee.qn else callee.qn), not hb,
+                    "; ".join(hb) if hb else "helper: writable pointer parameters receive only the result pointer; casts keep const", display_file(callee), hline, inst=callee.full)
 
 
 # --------------------------------------------------------------------------------------------------
@@ -1377,24 +1651,38 @@ class AliasCFG:
         return out
 
 
-def rule_alias(ck, agg, facts):
+def rule_alias(ck, agg, facts, bydecl=None):
     """r may alias y (apply(r,x,r,alpha) is permitted and used by the meta matrices).  In every kernel/wrapper that
     receives both: a read of y must not be preceded, on a feasible path on which r != y has not been established, by
     a write to r that can hit the element read."""
     R_ = "E5.alias-safe"
     viol_fns = set()
-    for f in facts.functions:
-        if f.tk == "pattern" or not (f.cls == "FEAT::LAFEM::Arch::Apply" or "Arch::Intern::ApplyBanded" in f.qn):
-            continue
-        rp = [p for p in f.params if p["n"] == "r"]
-        yp = [p for p in f.params if p["n"] in ("y", "rhs")]
-        if not rp or not yp or f.cfg is None:
-            continue
-        key = "Arch::%s" % f.qn.split("Arch::", 1)[-1]
+    bydecl = bydecl or {}
+    anchor = lambda g: g.tk != "pattern" and (g.cls == "FEAT::LAFEM::Arch::Apply" or "Arch::Intern::ApplyBanded" in g.qn)
+    items = [(f, None) for f in facts.functions if anchor(f)]
+    queued = set()
+    qi = 0
+    while qi < len(items):
+        f, bind = items[qi]
+        qi += 1
+        if bind is None:
+            rp = [p for p in f.params if p["n"] == "r"]
+            yp = [p for p in f.params if p["n"] in ("y", "rhs")]
+            if not rp or not yp or f.cfg is None:
+                continue
+            key = "Arch::%s" % f.qn.split("Arch::", 1)[-1]
+            bslot = next((i for i, p in enumerate(f.params) if p["n"] in BETA_SLOTS), None)
+            ptr = {rp[0]["d"]: "r", yp[0]["d"]: "y"}
+        else:
+            # helper reached from a kernel with both r and y: roles from the call-site binding, not from parameter names
+            if f.cfg is None:
+                ck.incomplete(R_, "helper %s receives r and y but has no CFG" % f.full)
+                continue
+            key = ("Arch::%s" % f.qn.split("Arch::", 1)[-1]) if "Arch::" in f.qn else f.qn.replace("FEAT::LAFEM::", "")
+            bslot = next((i for i, p in enumerate(f.params) if bind.get(p["d"]) == "b"), None)
+            ptr = {d: w for d, w in bind.items() if w in ("r", "y")}
         dfile = display_file(f)
         fi = FnInfo(f)
-        bslot = next((i for i, p in enumerate(f.params) if p["n"] in BETA_SLOTS), None)
-        ptr = {rp[0]["d"]: "r", yp[0]["d"]: "y"}
         changed = True
         while changed:
             changed = False
@@ -1410,6 +1698,26 @@ def rule_alias(ck, agg, facts):
         if any(d in fi.assigned for d in ptr):
             ck.incomplete(R_, "%s: pointer r/y (or an alias) is reassigned" % key)
             continue
+        # helpers that receive both r and y are analysed like kernels (bounded: each helper once per role binding)
+        for c in f.calls():
+            callee = bydecl.get(c.get("cdecl")) if c.get("k") == "Call" else None
+            if callee is None or anchor(callee) or PRIMITIVE.search(c.get("callee", "") or "") or len(c.get("a", [])) != len(callee.params):
+                continue
+            roles = []
+            for a in c["a"]:
+                while a is not None and a.get("k") == "Cast":
+                    a = a.get("e")
+                a = fi.resolve(a) if a is not None else None
+                w = ptr.get(a.get("d")) if a is not None and a.get("k") == "Ref" else None
+                if w is None and a is not None and bslot is not None and fi.role(a) == ("param", bslot):
+                    w = "b"
+                roles.append(w)
+            if "r" in roles and "y" in roles:
+                b2 = {callee.params[i]["d"]: w for i, w in enumerate(roles) if w}
+                sig = (callee.d.get("decl"), tuple(sorted((i, w) for i, w in enumerate(roles) if w)))
+                if sig not in queued and len(queued) < 64:
+                    queued.add(sig)
+                    items.append((callee, b2))
         acfg = AliasCFG(f, fi, ptr)
         cfg = f.cfg
 
@@ -1635,56 +1943,149 @@ def loop_bound(fi, loop):
     return (v["d"], v.get("init"), c["rhs"])
 
 
-def rule_e2(ck, agg, facts, alias_viol=()):
+STD_FILL = re.compile(r"^std::(fill|fill_n)$")
+STD_COPY = re.compile(r"^std::(copy|copy_n)$")
+C_MEM = re.compile(r"^(std::)?(memcpy|memmove|memset)$")
+
+
+def may_initialise(bydecl, callee, pidx_, depth=0):
+    """can the repository function `callee` define (overwrite without reading) the array it receives as parameter #pidx_?
+    False only if its body is known and every store through that pointer reads the same array (r[i] = f(r[i])), and
+    every callee it hands the pointer to is of the same kind"""
+    if callee is None or callee.body is None or depth > 3 or pidx_ >= len(callee.params):
+        return True
+    fi = FnInfo(callee)
+    mine = {callee.params[pidx_]["d"]}
+    changed = True
+    while changed:
+        changed = False
+        for d, v in fi.vars.items():
+            init = v.get("init")
+            while init is not None and (init.get("k") == "Cast" or (init.get("k") == "Bin" and init.get("op") in ("+", "-"))):
+                init = init.get("e") if init.get("k") == "Cast" else init.get("lhs")
+            if d not in mine and init is not None and init.get("k") == "Ref" and init.get("d") in mine:
+                mine.add(d)
+                changed = True
+
+    def base(n):
+        while n is not None and (n.get("k") == "Cast" or (n.get("k") == "Bin" and n.get("op") in ("+", "-"))):
+            n = n.get("e") if n.get("k") == "Cast" else n.get("lhs")
+        return n.get("d") if n is not None and n.get("k") == "Ref" else None
+    for n in callee.nodes():
+        k = n.get("k")
+        if k == "Assign" and n.get("op") == "=":
+            l = n.get("lhs") or {}
+            tgt = None
+            if l.get("k") == "Index":
+                tgt = base(l.get("b"))
+            elif l.get("k") == "OpCall" and l.get("op") == "[]" and l.get("a"):
+                tgt = base(l["a"][0])
+            elif l.get("k") == "Un" and l.get("op") == "*":
+                tgt = base(l.get("e"))
+            if tgt in mine and not any(x.get("k") == "Ref" and x.get("d") in mine for x in walk(n["rhs"])):
+                return True
+        elif k in ("Call", "MCall", "Construct", "TempObj"):
+            for i, a in enumerate(n.get("a", [])):
+                if base(a) in mine:
+                    cal = n.get("callee", "") or ""
+                    pts = n.get("pt", [])
+                    t = callee.type(pts[i]).strip() if i < len(pts) else ""
+                    if t and t.startswith("const "):
+                        continue
+                    if re.search(r"MemoryPool::(set_memory|copy)$", cal) or STD_FILL.match(cal) or STD_COPY.match(cal) or C_MEM.match(cal):
+                        if i == 0 or STD_COPY.match(cal):
+                            return True
+                        continue
+                    if may_initialise(bydecl, bydecl.get(n.get("cdecl")), i, depth + 1):
+                        return True
+    return False
+
+
+def rule_e2(ck, agg, facts, alias_viol=(), bydecl=None):
     """index kinds in the CSR-family and dense generic kernels.  Kinds: Row (loop over [0,rows) or row_numbers[.]),
     Col (loop over [0,columns) or col_ind[.]), NZ (loop over [row_ptr[k], row_ptr[k+1])).  r and x are subscripted in
     the kind of their space (r: Row, x: Col; swapped under transposed); val/col_ind in NZ; the initialisation of r
-    covers exactly the extent of r."""
+    covers exactly the extent of r.  Decided on the kernel with its helpers inlined; the transposed flag of a
+    statement and the conditions of the initialisation are path conditions (formulas), not branch shapes."""
+    bydecl = bydecl or {}
     kernels = [f for f in facts.functions if f.cls == "FEAT::LAFEM::Arch::Apply" and f.tk != "pattern" and f.name.endswith("_generic")]
     names = {f.name for f in kernels}
     for need in ("csr_generic", "cscr_generic", "bcsr_generic", "bcsr_transposed_generic", "csrsb_generic", "dense_generic", "dense_transposed_generic", "banded_generic", "banded_transposed_generic"):
         if need not in names:
             ck.incomplete("E2.kernel-kinds", "kernel Arch::Apply::%s not instantiated" % need)
-    for f in kernels:
-        fi = FnInfo(f)
-        key = "Arch::Apply::%s" % f.name
-        dfile = display_file(f)
-        cfg = f.cfg
+    for f0 in kernels:
+        key = "Arch::Apply::%s" % f0.name
+        dfile = display_file(f0)
+        cfg = f0.cfg
         # (a) the kernel returns normally
         has_exit = cfg is not None and bool(cfg.normal_exit_preds()) and any(b in cfg.reachable() for b in cfg.normal_exit_preds())
         agg.add("E2.kernel-returns", key, has_exit, "kernel has a normal exit" if has_exit else
-                "kernel has no normal exit (every path ends in a noreturn call): the operation offered by the container always aborts", dfile, f.line, inst=f.full)
+                "kernel has no normal exit (every path ends in a noreturn call): the operation offered by the container always aborts", dfile, f0.line, inst=f0.full)
         if not has_exit:
             continue
-        if f.name.startswith("banded"):
-            continue    # offset arithmetic of the banded kernel is not modelled (declared in the report)
+        f = inline_kernel(f0, bydecl)
+        fi = FnInfo(f)
+        try:
+            _rule_e2_kernel(ck, agg, f, fi, key, dfile, alias_viol, bydecl)
+        except TooManyAtoms as e_:
+            ck.incomplete("E2.kernel-init", "%s: %s independent branch conditions: path conditions not enumerated" % (key, e_))
+
+
+def _rule_e2_kernel(ck, agg, f, fi, key, dfile, alias_viol, bydecl):
+        banded = f.name.startswith("banded")
         pname = {p["d"]: p["n"] for p in f.params}
         pidx = {p["n"]: i for i, p in enumerate(f.params)}
         tflag = "transposed" in pidx
         transposed_kernel = f.name.endswith("_transposed_generic")
+        cnf, fl = reach_map(f, fi)
+        tform = cnf.formula({"k": "Ref", "dk": "param", "d": f.params[pidx["transposed"]]["d"], "n": "transposed", "t": f.params[pidx["transposed"]]["t"]}) if tflag else None
         # pointer aliases: br = reinterpret_cast<...>(r) etc.
         alias = {}
         for d, v in fi.vars.items():
             init = v.get("init")
             while init is not None and init.get("k") == "Cast":
                 init = init.get("e")
-            if init is not None and init.get("k") == "Ref" and init.get("dk") == "param" and "*" in f.type(v.get("t")):
+            if init is not None and init.get("k") == "Ref" and init.get("dk") == "param" and "*" in f.type(v.get("t")) and d not in fi.assigned:
                 alias[d] = pname.get(init["d"])
 
         def base_name(n):
-            n0 = n
-            if n.get("k") == "Ref":
+            while n is not None and n.get("k") == "Cast":
+                n = n.get("e")
+            if n is not None and n.get("k") == "Ref":
                 if n.get("dk") == "param":
                     return pname.get(n.get("d"))
                 if n.get("d") in alias:
                     return alias[n["d"]]
             return None
 
+        def reach_of(n):
+            cur = n
+            while cur is not None:
+                if id(cur) in fl.reach:
+                    return fl.reach[id(cur)]
+                cur = fi.parent.get(id(cur))
+            return T
+
+        def flag_of(n):
+            """value of `transposed` on the paths reaching n: True / False / None (both) / 'dead'"""
+            r = reach_of(n)
+            cons = cnf.exclusions()
+            if tform is None:
+                return None if f_sat(r, cons) is not None else "dead"
+            st = f_sat(f_and(r, tform), cons) is not None
+            sf = f_sat(f_and(r, f_not(tform)), cons) is not None
+            if st and sf:
+                return None
+            if st:
+                return True
+            if sf:
+                return False
+            return "dead"
+
         # loop environment
         def env_of(n):
-            """kinds of the loop variables enclosing node n, plus transposed branch flag"""
+            """kinds of the loop variables enclosing node n"""
             kinds = {}
-            flag = None
             cur = n
             while id(cur) in fi.parent:
                 p = fi.parent[id(cur)]
@@ -1693,13 +2094,8 @@ def rule_e2(ck, agg, facts, alias_viol=()):
                     if lb is not None and p.get("body") is not None and (cur is p["body"] or cur is not p.get("init")):
                         d, lo, hi = lb
                         kinds[d] = ("loop", lo, hi)
-                if p.get("k") == "If" and tflag and fi.role(p["c"]) == ("param", pidx["transposed"]):
-                    if p.get("then") is cur:
-                        flag = True
-                    elif p.get("else") is cur:
-                        flag = False
                 cur = p
-            return kinds, flag
+            return kinds
 
         def kind(n, kinds, depth=0):
             """index kind of expression n"""
@@ -1716,9 +2112,16 @@ def rule_e2(ck, agg, facts, alias_viol=()):
                     return {"rows": "Row", "columns": "Col", "used_rows": "URow"}.get(nm, "?" + nm)
                 # [row_ptr[k], row_ptr[k+1])
                 lo_r, hi_r = fi.resolve(lo) if lo is not None else {}, fi.resolve(hi)
+                while lo_r.get("k") == "Cast":
+                    lo_r = fi.resolve(lo_r["e"])
+                while hi_r.get("k") == "Cast":
+                    hi_r = fi.resolve(hi_r["e"])
                 if lo_r.get("k") == "Index" and hi_r.get("k") == "Index" and base_name(lo_r["b"]) == "row_ptr" and base_name(hi_r["b"]) == "row_ptr":
                     a, b = lo_r["idx"], fi.resolve(hi_r["idx"])
-                    if b.get("k") == "Bin" and b.get("op") == "+" and render(b["lhs"]) == render(a) and fi.role(b["rhs"]) == ("const", 1.0):
+                    plus1 = b.get("k") == "Bin" and b.get("op") == "+" and (
+                        (render(fi.resolve(b["lhs"])) == render(fi.resolve(a)) and fi.role(b["rhs"]) == ("const", 1.0)) or
+                        (render(fi.resolve(b["rhs"])) == render(fi.resolve(a)) and fi.role(b["lhs"]) == ("const", 1.0)))
+                    if plus1:
                         ka = kind(a, kinds, depth + 1)
                         if ka in ("Row", "URow"):
                             return "NZ"
@@ -1732,134 +2135,290 @@ def rule_e2(ck, agg, facts, alias_viol=()):
                     return "Row"
                 return "?"
             if k == "Bin" and n.get("op") == "+":
-                # dense: row * columns + col
-                l, r = fi.resolve(n["lhs"]), n["rhs"]
-                if l.get("k") == "Bin" and l.get("op") == "*":
-                    k1, k2, pr = kind(l["lhs"], kinds, depth + 1), kind(r, kinds, depth + 1), fi.role(l["rhs"])
-                    if k1 in ("Row", "Col") and k2 in ("Row", "Col") and pr[0] == "param" and f.params[pr[1]]["n"] in ("rows", "columns"):
-                        pitch = f.params[pr[1]]["n"]
-                        if (k1, pitch, k2) == ("Row", "columns", "Col"):
-                            return "RowCol"     # row-major storage of a rows x columns matrix
-                        return "%s*%s+%s" % (k1, pitch, k2)
+                # dense: row * columns + col (either order of the summands / factors)
+                for l, r in ((n["lhs"], n["rhs"]), (n["rhs"], n["lhs"])):
+                    l = fi.resolve(l)
+                    if l.get("k") == "Bin" and l.get("op") == "*":
+                        for m1, m2 in ((l["lhs"], l["rhs"]), (l["rhs"], l["lhs"])):
+                            k1, k2, pr = kind(m1, kinds, depth + 1), kind(r, kinds, depth + 1), fi.role(m2)
+                            if k1 in ("Row", "Col") and k2 in ("Row", "Col") and pr[0] == "param" and f.params[pr[1]]["n"] in ("rows", "columns"):
+                                pitch = f.params[pr[1]]["n"]
+                                if (k1, pitch, k2) == ("Row", "columns", "Col"):
+                                    return "RowCol"     # row-major storage of a rows x columns matrix
+                                return "%s*%s+%s" % (k1, pitch, k2)
                 return "?"
             return "?"
 
-        bad = []
-        unknown = []
-        nsub = 0
-        for n in f.nodes():
-            subs = []
-            if n.get("k") == "Index":
-                subs.append((n["b"], n["idx"]))
-            elif n.get("k") == "OpCall" and n.get("op") == "[]" and len(n.get("a", [])) == 2:
-                subs.append((n["a"][0], n["a"][1]))
-            for b, idx in subs:
-                bn = base_name(b)
-                if bn not in ("r", "x", "y", "val", "col_ind", "row_numbers"):
-                    continue
-                kinds, flag = env_of(n)
-                t_eff = transposed_kernel or (flag is True)
-                if tflag and flag is None and bn in ("r", "x"):
-                    bad.append("%s[%s] outside the if(transposed) branches (line %s)" % (bn, render(idx), n.get("l")))
-                    continue
-                kd = kind(idx, kinds)
-                want = {"r": "Col" if t_eff else "Row", "x": "Row" if t_eff else "Col", "y": "Col" if t_eff else "Row",
-                        "val": "NZ", "col_ind": "NZ", "row_numbers": "URow"}[bn]
-                if f.name.startswith("dense") and bn == "val":
-                    want = "RowCol"
-                nsub += 1
-                if kd.startswith("?"):
-                    unknown.append("%s[%s] (line %s)" % (bn, render(idx), n.get("l")))
-                elif kd != want:
-                    bad.append("%s[%s] is indexed by kind %s, expected %s%s (line %s)" % (bn, render(idx), kd, want, " in the transposed product" if t_eff else "", n.get("l")))
-        if unknown:
-            ck.incomplete("E2.kernel-kinds", "%s: index expression(s) of unrecognised kind (loop shape not modelled): %s" % (key, "; ".join(unknown[:4])))
-        agg.add("E2.kernel-kinds", key, not bad and (nsub > 0 or bool(unknown)), "; ".join(bad[:4]) if bad else ("%d subscripts of r/x/val/col_ind in the kind of their index space" % nsub if nsub else "no subscripts recognised"),
-                dfile, f.line, inst=f.full)
-        # (c) initialisation of r: set_memory(r, 0, N) / copy(r, y, N) with N = extent of r
-        inits = [c for c in f.calls() if c.get("k") == "Call" and re.search(r"MemoryPool::(set_memory|copy)$", c.get("callee", ""))]
-        ibad = []
-        # block size of r from the type its pointer is reinterpreted to
+        if not banded:
+            bad = []
+            unknown = []
+            nsub = 0
+            for n in f.nodes():
+                subs = []
+                if n.get("k") == "Index":
+                    subs.append((n["b"], n["idx"]))
+                elif n.get("k") == "OpCall" and n.get("op") == "[]" and len(n.get("a", [])) == 2:
+                    subs.append((n["a"][0], n["a"][1]))
+                for b, idx in subs:
+                    bn = base_name(b)
+                    if bn not in ("r", "x", "y", "val", "col_ind", "row_numbers"):
+                        continue
+                    kinds = env_of(n)
+                    flag = flag_of(n)
+                    if flag == "dead":
+                        continue
+                    kd = kind(idx, kinds)
+                    if tflag and flag is None and bn in ("r", "x"):
+                        if kd.startswith("?"):
+                            unknown.append("%s[%s] (line %s)" % (bn, render(idx), n.get("l")))
+                        else:
+                            bad.append("%s[%s] (kind %s) is reached with transposed true and with transposed false (line %s): wrong for one of them" % (bn, render(idx), kd, n.get("l")))
+                        continue
+                    t_eff = transposed_kernel or (flag is True)
+                    want = {"r": "Col" if t_eff else "Row", "x": "Row" if t_eff else "Col", "y": "Col" if t_eff else "Row",
+                            "val": "NZ", "col_ind": "NZ", "row_numbers": "URow"}[bn]
+                    if f.name.startswith("dense") and bn == "val":
+                        want = "RowCol"
+                    nsub += 1
+                    if kd.startswith("?"):
+                        unknown.append("%s[%s] (line %s)" % (bn, render(idx), n.get("l")))
+                    elif kd != want:
+                        bad.append("%s[%s] is indexed by kind %s, expected %s%s (line %s)" % (bn, render(idx), kd, want, " in the transposed product" if t_eff else "", n.get("l")))
+            if unknown:
+                ck.incomplete("E2.kernel-kinds", "%s: index expression(s) of unrecognised kind (loop shape not modelled): %s" % (key, "; ".join(unknown[:4])))
+            agg.add("E2.kernel-kinds", key, not bad and (nsub > 0 or bool(unknown)), "; ".join(bad[:4]) if bad else ("%d subscripts of r/x/val/col_ind in the kind of their index space" % nsub if nsub else "no subscripts recognised"),
+                    dfile, f.line, inst=f.full)
+        # (offset arithmetic of the banded kernel: rule E2.banded-interval; its initialisation of r is decided here like the others)
+
+        # (c) initialisation of r.  Contract (callers, rule E1.role): the 2-operand forms pass b = 0 and y = r, the
+        # 4-operand forms b = 1 and y possibly aliasing r.  Hence: for |b| < eps r must be zero-filled over its whole
+        # extent whatever y is; otherwise, when r != y, y must be copied into r over the whole extent.
+        ibad, iinc = [], []
         rblock = None
         for d, v in fi.vars.items():
             if alias.get(d) == "r":
                 m = re.search(r"Tiny::Vector<[^,]+, (\d+)", f.type(v.get("t")))
                 if m:
                     rblock = int(m.group(1))
-        for c in inits:
-            a = c.get("a", [])
-            if len(a) < 3 or base_name(fi.resolve(a[0])) != "r":
-                continue
-            n = fi.resolve(a[2])
-            kinds, flag = env_of(c)
+        scale = "" if not rblock else "*%d" % rblock
+        bslot = next((pidx[s_] for s_ in BETA_SLOTS if s_ in pidx), None)
 
-            def ext(n, fl):
-                n = fi.resolve(n)
-                if n.get("k") == "Cond" and tflag and fi.role(n["c"]) == ("param", pidx["transposed"]):
-                    return (ext(n["then"], True), ext(n["else"], False))
-                if n.get("k") == "Bin" and n.get("op") == "*":
-                    l, r = ext(n["lhs"], fl), fi.role(n["rhs"])
-                    if isinstance(l, str) and r[0] == "const":
-                        return "%s*%d" % (l, int(r[1]))
-                    return "?"
-                r = fi.role(n)
-                if r[0] == "param":
-                    return f.params[r[1]]["n"]
+        def ext(n):
+            n = fi.resolve(n)
+            while n.get("k") == "Cast":
+                n = fi.resolve(n["e"])
+            if n.get("k") == "Cond" and tflag:
+                c = cnf.formula(n["c"])
+                if c == tform:
+                    return (ext(n["then"]), ext(n["else"]))
+                if c == f_not(tform):
+                    return (ext(n["else"]), ext(n["then"]))
                 return "?"
-            e = ext(n, flag)
-            scale = "" if not rblock else "*%d" % rblock
+            if n.get("k") == "Bin" and n.get("op") == "*":
+                for x, y in ((n["lhs"], n["rhs"]), (n["rhs"], n["lhs"])):
+                    l, r = ext(x), fi.role(y)
+                    if isinstance(l, str) and l != "?" and r[0] == "const":
+                        return "%s*%d" % (l, int(r[1]))
+                return "?"
+            r = fi.role(n)
+            if r[0] == "param":
+                return f.params[r[1]]["n"]
+            return "?"
+
+        def ext_ok(e, flag):
+            """-> True / False / None (unknown expression)"""
             if tflag:
                 want = ("columns" + scale, "rows" + scale)
                 if isinstance(e, tuple):
-                    okk = e == want
-                elif flag is not None:
-                    okk = e == (want[0] if flag else want[1])
-                else:
-                    okk = False
-            else:
-                want = ("columns" if transposed_kernel else "rows") + scale
-                okk = e == want
-            if not okk:
-                ibad.append("%s initialises r over %s, expected %s (line %s)" % (c["callee"].rsplit("::", 1)[-1], e, want, c.get("l")))
-        if len(inits) < 2:
-            ibad.append("expected set_memory(r,0,n) and copy(r,y,n) initialisations, found %d" % len(inits))
-        # branch structure: |b| < eps -> zero fill; else r != y -> copy y; else r already holds y
-        bslot = next((pidx[s_] for s_ in BETA_SLOTS if s_ in pidx), None)
+                    if "?" in e:
+                        return None, want
+                    return e == want, want
+                if e == "?":
+                    return None, want
+                if flag in (True, False):
+                    return e == (want[0] if flag else want[1]), (want[0] if flag else want[1])
+                return False, want
+            want = ("columns" if transposed_kernel else "rows") + scale
+            if e == "?":
+                return None, want
+            return e == want, want
 
-        def is_bzero(c):
-            c = fi.resolve(c)
-            if c.get("k") != "Bin" or c.get("op") not in ("<", "<="):
-                return False
-            l, r_ = fi.resolve(c["lhs"]), fi.resolve(c["rhs"])
-            return l.get("k") == "Call" and l.get("callee", "").endswith("Math::abs") and len(l.get("a", [])) == 1 and fi.role(l["a"][0]) == ("param", bslot) \
-                and r_.get("k") == "Call" and r_.get("callee", "").endswith("Math::eps")
+        def ptr_plus(n, base):
+            """n == base + N  ->  N node"""
+            n = fi.resolve(n)
+            if n.get("k") == "Bin" and n.get("op") == "+":
+                if base_name(fi.resolve(n["lhs"])) == base:
+                    return n["rhs"]
+                if base_name(fi.resolve(n["rhs"])) == base:
+                    return n["lhs"]
+            return None
 
-        def is_r_ne_y(c):
-            c = fi.resolve(c)
-            if c.get("k") != "Bin" or c.get("op") != "!=":
-                return False
-            return {base_name(fi.resolve(c["lhs"])), base_name(fi.resolve(c["rhs"]))} == {"r", "y"}
-        for c in inits:
-            a = c.get("a", [])
-            if len(a) < 3 or base_name(fi.resolve(a[0])) != "r":
+        events, writers = [], []
+        consumed = set()
+        for c in f.calls():
+            if c.get("k") != "Call":
                 continue
-            enc = fi.enclosing_ifs(c)
-            nm = c["callee"].rsplit("::", 1)[-1]
-            if nm == "set_memory":
-                if not (len(enc) == 1 and enc[0][1] == "then" and is_bzero(enc[0][0]["c"])):
-                    (ck.note if f.name in alias_viol else lambda m: ck.incomplete("E2.kernel-init", m))("%s: zero fill of r not directly under if(|b| < eps) (line %s)" % (key, c.get("l")))
-                elif fi.role(a[1]) != ("const", 0.0):
-                    ibad.append("r is filled with %s instead of 0 for b = 0 (line %s)" % (render(a[1]), c.get("l")))
+            cal = c.get("callee", "") or ""
+            a = c.get("a", [])
+            nm = cal.rsplit("::", 1)[-1]
+            if re.search(r"MemoryPool::(set_memory|copy)$", cal) and len(a) >= 3 and base_name(fi.resolve(a[0])) == "r":
+                events.append({"kind": "fill" if nm == "set_memory" else "copy", "node": c, "src": a[1], "n": a[2], "what": nm})
+                consumed.add(id(c))
+            elif STD_FILL.match(cal) and len(a) == 3 and base_name(fi.resolve(a[0])) == "r":
+                cnt = a[1] if nm == "fill_n" else ptr_plus(a[1], "r")
+                events.append({"kind": "fill", "node": c, "src": a[2], "n": cnt, "what": "std::" + nm})
+                consumed.add(id(c))
+            elif STD_COPY.match(cal) and len(a) == 3 and base_name(fi.resolve(a[2])) == "r":
+                srcb = fi.resolve(a[0])
+                cnt = a[1] if nm == "copy_n" else ptr_plus(a[1], base_name(srcb) or "\0")
+                events.append({"kind": "copy", "node": c, "src": a[0], "n": cnt, "what": "std::" + nm})
+                consumed.add(id(c))
+        # hand loops  for(i = 0; i < N; ++i) r[i] = 0 | y[i];
+        for n in f.nodes():
+            if n.get("k") != "For":
+                continue
+            lb = loop_bound(fi, n)
+            body = n.get("body")
+            while body is not None and body.get("k") == "Block" and len(body.get("s", [])) == 1:
+                body = body["s"][0]
+            if lb is None or body is None or body.get("k") != "Assign" or body.get("op") != "=":
+                continue
+            l = body.get("lhs") or {}
+            if l.get("k") != "Index" or base_name(fi.resolve(l["b"])) != "r" or fi.resolve(l["idx"]).get("d") != lb[0]:
+                continue
+            if fi.role(lb[1]) != ("const", 0.0):
+                continue
+            rhs = fi.resolve(body["rhs"])
+            if fi.role(rhs) == ("const", 0.0):
+                events.append({"kind": "fill", "node": n, "src": rhs, "n": lb[2], "what": "zero loop", "stmt": body})
+                consumed.add(id(body))
+            elif rhs.get("k") == "Index" and fi.resolve(rhs["idx"]).get("d") == lb[0] and base_name(fi.resolve(rhs["b"])) is not None:
+                events.append({"kind": "copy", "node": n, "src": rhs["b"], "n": lb[2], "what": "copy loop", "stmt": body})
+                consumed.add(id(body))
+        # other potential initialisers of r: calls receiving r mutably, stores that overwrite r without reading it
+        for c in f.calls():
+            if id(c) in consumed or c.get("k") not in ("Call", "MCall"):
+                continue
+            pts = c.get("pt", [])
+            for i, a in enumerate(c.get("a", [])):
+                if base_name(fi.resolve(a)) == "r" or ptr_plus(a, "r") is not None:
+                    t = f.type(pts[i]).strip() if i < len(pts) else ""
+                    if not t or (("*" in t or "&" in t) and not t.startswith("const ")):
+                        if may_initialise(bydecl, bydecl.get(c.get("cdecl")), i):
+                            writers.append((c, "r is passed to the mutable parameter #%d of %s" % (i, c.get("callee", "?"))))
+        for n in f.nodes():
+            if n.get("k") == "Assign" and n.get("op") == "=" and id(n) not in consumed:
+                l = n.get("lhs") or {}
+                tgt = None
+                if l.get("k") == "Index":
+                    tgt = base_name(fi.resolve(l["b"]))
+                elif l.get("k") == "OpCall" and l.get("op") == "[]" and l.get("a"):
+                    tgt = base_name(fi.resolve(l["a"][0]))
+                elif l.get("k") == "Un" and l.get("op") == "*":
+                    tgt = base_name(fi.resolve(l["e"]))
+                if tgt == "r" and not any(x.get("k") == "Ref" and (pname.get(x.get("d")) == "r" or alias.get(x.get("d")) == "r") for x in walk(n["rhs"])):
+                    writers.append((n, "store '%s' overwrites r without reading it" % render(n)[:50]))
+
+        cons = cnf.exclusions()
+        live = lambda n: f_sat(reach_of(n), cons) is not None
+        # atoms of the contract
+        bz_pos, bz_neg, ne = [], [], None
+        for akey, info in list(cnf.atom_info.items()):
+            if info.get("kind") == "lt" and bslot is not None:
+                if _is_abs_of(fi, info["a"], ("param", bslot)) and _is_eps(fi, info["b"]):
+                    bz_pos.append(akey)
+                elif _is_eps(fi, info["a"]) and _is_abs_of(fi, info["b"], ("param", bslot)):
+                    bz_neg.append(akey)
+            if info.get("kind") == "eq" and {base_name(fi.resolve(info["a"])), base_name(fi.resolve(info["b"]))} == {"r", "y"}:
+                ne = f_not(f_atom(akey))
+        for pz in bz_pos:
+            for ng in bz_neg:
+                cons = f_and(cons, f_not(f_and(f_atom(pz), f_atom(ng))))
+        if bz_pos or bz_neg:
+            Bz = f_and(*([f_atom(k_) for k_ in bz_pos] + [f_not(f_atom(k_)) for k_ in bz_neg]))
+        else:
+            Bz = cnf._mk(("lt", "|b|", "eps"), kind="synthetic")
+        if ne is None:
+            ne = f_not(cnf._mk(("eq", "r", "y"), kind="synthetic"))
+        known = set(bz_pos) | set(bz_neg) | f_atoms(ne) | f_atoms(Bz) | (f_atoms(tform) if tform is not None else set())
+
+        def independent(akey):
+            """the atom is a test on input parameters other than b, r, y (independent inputs: both outcomes are admissible)"""
+            info = cnf.atom_info.get(akey, {})
+            nodes_ = [info.get(x_) for x_ in ("e", "a", "b") if isinstance(info.get(x_), dict)]
+            if not nodes_ or info.get("kind") in ("loop", "case", "opaque", "synthetic"):
+                return info.get("kind") in ("loop", "case")
+            for nd in nodes_:
+                for x_ in walk(fi.resolve(nd)):
+                    if x_.get("k") == "Ref":
+                        y_ = fi.resolve(x_)
+                        if y_.get("k") != "Ref" or y_.get("dk") != "param" or pname.get(y_.get("d")) in ("r", "y") + BETA_SLOTS:
+                            return False
+                    elif x_.get("k") in ("MCall", "Member", "Index", "This"):
+                        return False
+            return True
+
+        def names(w):
+            parts = []
+            for k_, v in sorted(w.items(), key=lambda kv: repr(kv[0])):
+                if k_ in bz_pos or k_ == ("lt", "|b|", "eps"):
+                    parts.append("|b| < eps" if v else "|b| >= eps")
+                elif k_ in bz_neg:
+                    parts.append("|b| > eps" if v else "|b| <= eps")
+                elif k_ in f_atoms(ne):
+                    parts.append("r == y" if v else "r != y")
+                elif tform is not None and k_ in f_atoms(tform):
+                    parts.append("transposed" if v else "!transposed")
+                elif k_[0] not in ("loop", "case"):
+                    parts.append(("%s" if v else "!(%s)") % ZeroAtoms._name(k_, {}))
+            return ", ".join(parts) or "always"
+
+        fills, copies = F, F
+        for ev in events:
+            c = ev["node"]
+            flag = flag_of(c)
+            if flag == "dead":
+                continue
+            r_ev = reach_of(c)
+            if ev["n"] is None:
+                iinc.append("%s: extent of '%s' not recognised (line %s)" % (key, render(c)[:60], c.get("l")))
+                okx = None
             else:
-                if base_name(fi.resolve(a[1])) != "y":
-                    ibad.append("copy initialises r from '%s', expected y (line %s)" % (render(a[1]), c.get("l")))
-                c0 = fi.resolve(enc[0][0]["c"]) if enc else {}
-                if len(enc) == 2 and enc[0][1] == "then" and c0.get("k") == "Bin" and c0.get("op") == "==" \
-                        and {base_name(fi.resolve(c0["lhs"])), base_name(fi.resolve(c0["rhs"]))} == {"r", "y"}:
-                    ibad.append("y is copied into r only when r == y: for r != y and b != 0 the summand is lost (line %s)" % c.get("l"))
-                elif not (len(enc) == 2 and enc[0][1] == "then" and is_r_ne_y(enc[0][0]["c"]) and enc[1][1] == "else" and is_bzero(enc[1][0]["c"])):
-                    (ck.note if f.name in alias_viol else lambda m: ck.incomplete("E2.kernel-init", m))("%s: copy of y into r not under 'else if (r != y)' of the |b| < eps test (line %s)" % (key, c.get("l")))
-        agg.add("E2.kernel-init", key, not ibad, "; ".join(ibad) if ibad else "set_memory/copy of r cover exactly the extent of r", dfile, f.line, inst=f.full)
+                e = ext(ev["n"])
+                okx, want = ext_ok(e, flag)
+                if okx is None:
+                    iinc.append("%s: %s initialises r over '%s': extent expression not recognised (line %s)" % (key, ev["what"], render(fi.resolve(ev["n"]))[:60], c.get("l")))
+                elif not okx:
+                    ibad.append("%s initialises r over %s, expected %s (line %s)" % (ev["what"], e, want, c.get("l")))
+            if ev["kind"] == "fill":
+                fills = f_or(fills, r_ev)
+                if fi.role(ev["src"]) != ("const", 0.0):
+                    ibad.append("r is filled with %s instead of 0 for b = 0 (line %s)" % (render(ev["src"]), c.get("l")))
+                v, w = decide(f_and(r_ev, f_not(Bz)), cons, universal=[k_ for k_ in f_atoms(r_ev) if k_ not in known and not independent(k_)])
+                if v != "unsat":
+                    (ck.note if f.name in alias_viol else iinc.append)("%s: zero fill of r is reachable with |b| >= eps (%s) (line %s)" % (key, names(w), c.get("l")))
+            else:
+                if base_name(fi.resolve(ev["src"])) != "y":
+                    ibad.append("copy initialises r from '%s', expected y (line %s)" % (render(ev["src"]), c.get("l")))
+                copies = f_or(copies, r_ev)
+        lw = [(n, why) for n, why in writers if live(n)]
+
+        def require(cond, have, msg):
+            unknown = [k_ for k_ in f_atoms(f_and(cond, f_not(have))) if k_ not in known and not independent(k_)]
+            v, w = decide(f_and(cond, f_not(have)), cons, universal=unknown)
+            if v == "unsat":
+                return
+            if v == "depends":
+                iinc.append("%s: %s — depends on a condition the rule does not recognise" % (key, msg % names(w)))
+            elif lw:
+                iinc.append("%s: %s by set_memory/copy, but %s (line %s): initialisation by that construct is not modelled" % (key, msg % names(w), lw[0][1], lw[0][0].get("l")))
+            else:
+                ibad.append((msg % names(w)) + (" [initialisations found: %s]" % ", ".join("%s line %s" % (e_["what"], e_["node"].get("l")) for e_ in events) if events else " [no set_memory/copy of r found]"))
+        require(Bz, fills, "for |b| < eps (the 2-operand forms pass b = 0 and y = r) r is not zero-filled when %s: the old content of r (NaN/inf) enters the result")
+        require(f_and(f_not(Bz), ne), copies, "for b != 0 and r != y the summand y is not copied into r when %s")
+        for m in iinc:
+            (ck.note if f.name in alias_viol else lambda m_: ck.incomplete("E2.kernel-init", m_))(m)
+        agg.add("E2.kernel-init", key, not ibad, "; ".join(ibad) if ibad else "r is zero-filled for |b| < eps and receives y otherwise, over exactly the extent of r (%d initialisation(s))" % len(events), dfile, f.line, inst=f.full)
 
 
 # --------------------------------------------------------------------------------------------------
@@ -2156,12 +2715,16 @@ def run(tier):
     drvdir = os.path.join(featlib.VERIF, "tu") + "/c01_"
     extra = ("-DC01_THOROUGH",) if tier == "thorough" else ()
     files = featlib.repo_path(LAFEM) + "|" + drvdir
-    facts = featlib.extract(DRIVER, files=files, names=r"[Aa]pply|^c01_|::(copy|convert|assign|_copy_content)$|::DenseVector<[^:]*>::DenseVector$", extra=extra)
+    # every function defined below kernel/lafem that the driver instantiates (helpers extracted from the anchored functions
+    # carry arbitrary names)
+    facts = featlib.extract(DRIVER, files=files, extra=extra)
     ck.tu(facts)
     pfacts = featlib.extract(DRIVER, files=featlib.repo_path(LAFEM), names=r"::apply(_transposed)?$", patterns=True, cfg=False, extra=extra)
     ck.tu(pfacts)
     bydecl = {f.d.get("decl"): f for f in facts.functions if f.tk != "pattern"}
     agg = Agg(ck)
+    _inline_cache.clear()
+    inlined_helpers = set()
 
     failed = rule_e0(ck, agg, facts, pfacts, bydecl, drvdir)
 
@@ -2179,29 +2742,38 @@ def run(tier):
         if arity(f) not in (2, 4) or fi.pkind[0] not in ("DV", "DVB", "VL", "VR", "MV") or (arity(f) == 4 and fi.pkind[3] != "a"):
             ck.incomplete("E1.role", "%s at %s: unexpected signature (%s)" % (f.full, f.loc, ",".join(fi.pkind)))
             continue
-        pg = rule_e1_guards(ck, agg, f, fi, meta)
-        rule_c6(ck, agg, f, fi, meta)
         if meta:
+            pg = rule_e1_guards(ck, agg, f, fi, meta)
+            rule_c6(ck, agg, f, fi, meta)
             nmeta += 1
             if any(True for _ in arch_calls(f)):
                 ck.incomplete("E4.matvec", "%s: meta container calls an Arch kernel directly" % fkey(f))
             rule_e4(ck, agg, f, fi, pg, bydecl)
         else:
             nsc += 1
-            if not any(True for _ in arch_calls(f)):
+            # helpers of the class (shared implementation of twins, extracted early-out, predicate helpers) are inlined
+            fx = inline_member(f, bydecl)
+            if fx.inlined:
+                fxi = FnInfo(fx)
+                inlined_helpers |= {c_.d.get("decl") for c_, _ in fx.inlined}
+            else:
+                fx, fxi = f, fi
+            rule_e1_guards(ck, agg, fx, fxi, meta)
+            rule_c6(ck, agg, fx, fxi, meta)
+            if not any(True for _ in arch_calls(fx)):
                 ck.incomplete("E1.role", "%s at %s: no Arch::Apply call found in a scalar container apply*" % (fkey(f), f.loc))
-            rule_e1_roles(ck, agg, f, fi)
-            rule_e7(ck, agg, f, fi, bydecl)
+            rule_e1_roles(ck, agg, fx, fxi)
+            rule_e7(ck, agg, fx, fxi, bydecl)
     # Arch::Apply calls outside apply*/wrappers would escape the role table
     for f in facts.functions:
-        if f.tk == "pattern" or f in members or f.cls == "FEAT::LAFEM::Arch::Apply" or f.file.startswith(drvdir):
+        if f.tk == "pattern" or f in members or f.cls == "FEAT::LAFEM::Arch::Apply" or f.file.startswith(drvdir) or f.d.get("decl") in inlined_helpers:
             continue
         if any(True for _ in arch_calls(f)):
             ck.incomplete("E1.role", "Arch::Apply kernel called from %s (%s), which is not an apply* member of an anchored container" % (f.full, f.loc))
     rule_e1_dispatch(ck, agg, facts, bydecl)
-    rule_c6_kernels(ck, agg, facts)
-    alias_viol = rule_alias(ck, agg, facts)
-    rule_e2(ck, agg, facts, alias_viol)
+    rule_c6_kernels(ck, agg, facts, bydecl)
+    alias_viol = rule_alias(ck, agg, facts, bydecl)
+    rule_e2(ck, agg, facts, alias_viol, bydecl)
     rule_banded(ck, agg, tier)
     agg.flush()
 
